@@ -78,6 +78,40 @@ def run(run):
                                       "rep": {"flops": int(tr_.flops), "maxsize": int(tr_.max_size), "peak": int(tr_.peak_size),
                                               "write": int(tr_.write)}})
                         descs.append(d)
+    # ---- objects of the compressed class asked WITHOUT arguments: the cap, the order and compress_late in force are those of
+    # the object's objective as it is NOW (also after the objective was replaced)
+    for _ in range(30 if quick else 300):
+        net = rng.choice(pool)
+        if net.N < 2:
+            continue
+        ssa = nets.tree_to_ssa(nets.rand_tree(rng, net.N), net.N, rng)
+        chi1, late1 = rng.choice([1, 2, 3, 4]), rng.random() < 0.5
+        from cotengra.scoring import CompressedPeakObjective, CompressedSizeObjective
+        mk = rng.choice([CompressedPeakObjective, CompressedSizeObjective])
+        d = {"net": net.to_json(), "ssa": [list(p) for p in ssa], "order": "default of the object", "late": late1, "chi": chi1,
+             "object": "ContractionTreeCompressed, no-argument estimates"}
+        run.count()
+        run.nontrivial((net.eq(), str(net.dims), str(ssa), "implicit", chi1, late1, mk.__name__))
+        try:
+            with core.watchdog(60):
+                ctw = ct.ContractionTreeCompressed.from_path(net.c_inputs(), net.c_output(), net.c_sizes(), ssa_path=ssa,
+                                                             objective=mk(chi=chi1, compress_late=late1))
+                seq = [observe.node1(p) for p, _, _ in ctw.traverse()]
+                reps = []
+                for chi_now, late_now in ((chi1, late1), (HUGE, rng.random() < 0.5)):
+                    if chi_now == HUGE:
+                        ctw.set_default_objective(mk(chi=HUGE, compress_late=late_now))
+                    reps.append((chi_now, late_now, {"flops": int(ctw.total_flops()), "maxsize": int(ctw.max_size()),
+                                                     "peak": int(ctw.peak_size()), "write": int(ctw.total_write())}))
+        except Exception as e:
+            run.violation(f"no-argument estimates of a compressed tree raised {core.exc_text(e)} eq={net.eq()} ssa={ssa}", d, tags={"raised", "implicit"})
+            continue
+        for chi_now, late_now, rep in reps:
+            if max(rep.values()) >= 2**31:
+                continue
+            cases.append({"net": net.tla(), "ch": observe.children_of(ctw), "seq": seq, "chi": chi_now, "late": late_now,
+                          "uncapped": chi_now == HUGE, "rep": rep})
+            descs.append(dict(d, chi=chi_now, late=late_now, history=f"objective first chi={chi1}, then replaced by chi={chi_now}" if chi_now == HUGE else "as built"))
     verdicts, results = tla.judge_cases(f"c20_{run.tier}", "CompressedJudge", cases, chunk=250)
     for res in results:
         run.tlc(res)
